@@ -14,9 +14,19 @@ MEMCPY = ("_mi_memcpy", "_mi_memcpy_aligned", "memcpy")
 
 
 def anchors(f):
+    """(p, newsize, old-size variable, new-block variable). The old size is the variable the in-place guard compares newsize with;
+    whether it is really the usable size of p is judged by C05.R3 (a violation there, not an analysis failure)."""
     p_d = next((f.param_id(k) for k, p in enumerate(f.d["params"]) if p["t"] == "void *"), None)
     ns_d = next((f.param_id(k) for k, p in enumerate(f.d["params"]) if p["n"] == "newsize" or (p["t"] == "size_t" and k == 2)), None)
     olds = [dd["d"] for _, dd in rl.var_init_from(f, lambda j: rl.is_call(f, j, ("_mi_usable_size", "mi_usable_size")) and f.is_ref(f.nodes[j]["args"][0], p_d))]
+    if not olds:
+        # fall back to the variable compared with newsize
+        for x in f.all(kind="BinaryOperator"):
+            c = rl.cmp_parts(f, x)
+            if c and c[0] in ("<=", "<", ">", ">=") and ns_d in (rl.var_of(f, c[1]), rl.var_of(f, c[2])):
+                o = rl.var_of(f, c[2]) if rl.var_of(f, c[1]) == ns_d else rl.var_of(f, c[1])
+                if o is not None and o not in f.pids:
+                    olds.append(o)
     news = [dd["d"] for _, dd in rl.var_init_from(f, lambda j: rl.is_call(f, j) and (f.nodes[j].get("callee") or "").startswith("mi_heap_malloc"))]
     if p_d is None or ns_d is None or not olds or not news:
         raise AnalysisBroken("C05: anchors (p, newsize, old usable size, new block) not found in %s" % f.name)
@@ -169,6 +179,14 @@ def r3(ctx, prog):
             ctx.check(R, w is None, f.where(r), "`return p` only when newsize > 0 (realloc(NULL,0) must allocate)", key="C05.R3:plain:positive", witness=w)
     if n == 0:
         ctx.broke("C05.R3: no in-place return in _mi_heap_realloc_zero")
+    # the size every decision is based on is the alignment-aware usable size of p
+    for fname in BODIES:
+        h = prog.fn(fname)
+        hp, hns, hold, hnew = anchors(h)
+        defs = [rhs for a, rhs, op in h.var_defs(hold) if rhs is not None]
+        ok = len(defs) == 1 and rl.is_call(h, h.strip(defs[0]), ("_mi_usable_size", "mi_usable_size")) and h.is_ref(h.nodes[h.strip(defs[0])]["args"][0], hp)
+        ctx.check(R, ok, h.where(), "the old size is %s: must be (_)mi_usable_size(p), which accounts for interior (aligned) pointers — a raw page/block size over-estimates it and the "
+                  "in-place path would hand out bytes of the next block" % (h.text(defs[0])[:70] if defs else "?"), key="C05.R3:%s:usable" % fname)
     g = prog.fn("mi_heap_realloc_zero_aligned_at")
     cfg = g.cfg
     p_d, ns_d, old_d, new_d = anchors(g)
